@@ -9,8 +9,3 @@ func genNotify(w *bufio.Writer, repo string) error {
 	fmt.Fprintln(w, "-- GENERATED (stub)\nnamespace Klev.Gen\nend Klev.Gen")
 	return nil
 }
-
-func genFacts(w *bufio.Writer, repo string) error {
-	fmt.Fprintln(w, "-- GENERATED (stub)\nnamespace Klev.Gen\nend Klev.Gen")
-	return nil
-}
